@@ -2,6 +2,7 @@ package mon
 
 import (
 	"fmt"
+	"math"
 	"reflect"
 	"strconv"
 
@@ -146,6 +147,10 @@ func runC13(c *fw.Ctx) {
 		L(L(O("a", I(1)))), L(L(L())), O("rows", L(L(O("id", I(1))))), L(), O(), L(O()), O("a", L()),
 		L(I(1), L(I(2), L(I(3), L(I(4), O("k", L(O("z", spec.NilV()))))))),
 		O("count", I(3), "name", spec.StrV("test"), "tags", L(spec.StrV("a"), spec.StrV("b"))),
+		// infinities are float64 values like any other for the native conversions (C13 has no finiteness clause; NaN is left
+		// out because it is not deep-equal to itself)
+		L(spec.FloatV(math.Inf(1)), spec.FloatV(math.Inf(-1)), O("k", spec.FloatV(math.Inf(1)), "l", L(spec.FloatV(math.Inf(-1)))), spec.FloatV(math.MaxFloat64), spec.FloatV(5e-324), spec.FloatV(math.Copysign(0, -1))),
+		O("inf", spec.FloatV(math.Inf(1)), "ninf", spec.FloatV(math.Inf(-1)), "max", spec.FloatV(-math.MaxFloat64)),
 	}
 	c.Cases("pinned", len(pins), true, func(i int, r *rng.R) { c13Case(c, r, pins[i]) })
 	historyCases(c, "history", 600, 60000, probeNative)
